@@ -382,6 +382,14 @@ def leg_b(args):
                 unmatched.remove(hit)
             for row in raw:
                 for c, (n, t, nl) in enumerate(cols):
+                    if t == "DECIMAL(10,2)" and isinstance(row[c], str) and row[c][:2] == "d:":
+                        # the declared type is DECIMAL(10,2): a stored value with more than two significant fractional digits
+                        # is not a value of that type
+                        try:
+                            if -Decimal(row[c][2:]).normalize().as_tuple().exponent > 2:
+                                res["violations"].append(dict(signature="stored-value-outside-declared-type:decimal-scale", what=f"{ddl}; {sql}: column {n} DECIMAL(10,2) holds {row[c][2:]}", sql=sql, ddl=ddl, engine=engine))
+                        except InvalidOperation:
+                            pass
                     if row[c] is None and not nl:
                         res["violations"].append(dict(signature="null-in-not-null-column", what=f"{ddl}; {sql}: column {n} holds NULL", sql=sql, ddl=ddl, engine=engine))
                     if row[c] is None and c in pk:
